@@ -362,7 +362,11 @@ func (r *Run) runPath(sol *Solver, prefix []int) {
 					reason = "engine-error"
 					r.mu.Lock()
 					if len(r.engineErrors) < 20 {
-						r.engineErrors = append(r.engineErrors, e.msg)
+						msg := e.msg
+						if os.Getenv("VERIF_DEBUG") != "" {
+							msg += "\n" + trimStack(debug.Stack())
+						}
+						r.engineErrors = append(r.engineErrors, msg)
 					}
 					r.mu.Unlock()
 				default:
